@@ -191,7 +191,7 @@ def make_scenarios(tier, seed):
     else:
         plan = []
         modes = list(MODES)
-        for i in range(110):
+        for i in range(300):
             m = modes[i % len(modes)]
             plan.append((m, rng.choice(["many", "many", "few", "few", "none"])))
         nrun, nsort = 30, 4
